@@ -11,6 +11,8 @@ import Driver.LruCmd
 import Driver.CodecCmd
 import Driver.PickCmd
 import Driver.BuilderCmd
+import Driver.PotentialCmd
+import Driver.ScoreCmd
 /-
 `raindrv`: one request per line on stdin, one answer per line on stdout.
 Unknown or malformed requests answer `bad-request` (never a default value).
@@ -26,6 +28,7 @@ def dispatch (toks : List String) : String :=
       else if cmd.startsWith "bloom." || cmd.startsWith "filter." then bloomCmd toks
       else if cmd.startsWith "key." || cmd.startsWith "bytes." || cmd.startsWith "block." || cmd.startsWith "table." || cmd.startsWith "lookup." then tableCmd toks
       else if cmd.startsWith "merge." || cmd.startsWith "dbiter." then iterCmd toks
+      else if cmd == "lsm.potential" then potentialCmd toks
       else if cmd.startsWith "lsm." then lsmCmd toks
       else if cmd.startsWith "dur." then durCmd toks
       else if cmd.startsWith "proto." then protoCmd toks
@@ -35,6 +38,7 @@ def dispatch (toks : List String) : String :=
       else if cmd.startsWith "batch." || cmd.startsWith "edit." then codecCmd toks
       else if cmd.startsWith "pick." then pickCmd toks
       else if cmd.startsWith "builder." then builderCmd toks
+      else if cmd.startsWith "score." then scoreCmd toks
       else none
     match r with
     | some s => s
